@@ -72,11 +72,22 @@ static void judge(bool returned)
   else { VASSERT(returned); VASSERT(count(E_EXIT) == 0 && count(E_RAISE) == 0); }
 }
 
+static bool g_alarm_mode; static int32_t g_first_sig;
+static void judge_alarm()
+{
+  // the watchdog re-raises the ORIGINAL signal (or SIGALRM itself when it is the first one) with the default disposition
+  int32_t expect = g_first_sig != 0 ? g_first_sig : SIGALRM;
+  VASSERT(count(E_SIGNAL_DFL) == 1 && g_eff[find(E_SIGNAL_DFL)].arg == expect);
+  VASSERT(count(E_RAISE) == 1 && g_eff[find(E_RAISE)].arg == expect);
+  VASSERT(find(E_SIGNAL_DFL) < find(E_RAISE));
+  VASSERT(count(E_EXIT) == 0 && count(E_LOG) == 0 && count(E_FLUSH) == 0);
+  VWITNESS(g_first_sig == SIGSEGV);
+}
 extern "C" void vh_effect(uint32_t kind, int64_t arg)
 {
   VASSUME(g_neff < 12);
   g_eff[g_neff].kind = kind; g_eff[g_neff].arg = arg; g_neff++; vobs(kind); vobs(static_cast<uint64_t>(arg));
-  if (kind == E_EXIT || kind == E_RAISE || kind == E_PAUSE) judge(false);
+  if (kind == E_EXIT || kind == E_RAISE || kind == E_PAUSE) { if (g_alarm_mode) judge_alarm(); else judge(false); }
 }
 extern "C" uint32_t vh_tid() { return g_tid; }
 // hooks (irpass -r): logger lookup, the two notices, flush
@@ -106,4 +117,17 @@ extern "C" void h_on_signal()
   judge(true);
   VASSERT(ctx.signal_number.load() == g_sig);
   VWITNESS(true);
+}
+
+// the watchdog: if the handler does not finish within the timeout, SIGALRM arrives and the process still dies from the
+// original signal
+extern "C" void h_on_alarm()
+{
+  static int const sigs[7] = {0, SIGTERM, SIGINT, SIGABRT, SIGFPE, SIGILL, SIGSEGV};
+  g_alarm_mode = true;
+  g_first_sig = sigs[vnd_range(0, 6)];
+  SignalHandlerContext& ctx = SignalHandlerContext::instance();
+  *reinterpret_cast<int32_t*>(&ctx.signal_number) = g_first_sig;
+  on_alarm(SIGALRM);
+  VASSERT(false);                       // never returns: the raise ends the process
 }
